@@ -825,6 +825,9 @@ func (x *Exec) callWithContract(fu *FuncUnit, uc *UnitContract, recv *Value, arg
 	x.pkg = fu.Pkg.Types
 	defer func() { x.info, x.pkg = savedInfo, savedPkg }()
 	for _, r := range uc.Requires {
+		if !on(r.Tags) {
+			continue
+		}
 		g := x.specBool(r, st, sp)
 		x.assert(st, g, "call-pre", fmt.Sprintf("%s/call-pre:%s.%s@%d", x.uc.ID(), fu.Name, r.Name, ord), r.Tags, e.Pos(), "precondition of "+fu.Name+": "+r.Text)
 	}
@@ -879,6 +882,9 @@ func (x *Exec) callWithContract(fu *FuncUnit, uc *UnitContract, recv *Value, arg
 		}
 	}
 	for _, en := range uc.Ensures {
+		if !on(en.Tags) {
+			continue
+		}
 		x.assume(st, x.specBool(en, st, sp), "ensures:"+fu.Name+"."+en.Name)
 	}
 	if len(results) == 0 {
